@@ -579,6 +579,21 @@ func (s *syncer) resolveBisyncCheckpointNameWithClient(cli client.Redis, ids []s
 	if err != nil {
 		return "", err
 	}
+	// A start in the old mode prefers the root checkpoint when it is ahead of the recorded
+	// bisync state (bisyncStartPoint's root override); the migrated namespace must not
+	// fall behind that position.
+	root, _, err := checkpoint.GetCheckpoint(cli, cpName, ids)
+	if err != nil {
+		return "", err
+	}
+	if err := redis.SelectDB(cli, 0); err != nil { // GetCheckpoint leaves the connection on the database it visited last
+		return "", err
+	}
+	if root != nil && checkpoint.MatchBisyncRunID(root.RunId, ids) && (seed == nil || root.Offset > seed.Offset) {
+		if seed, err = checkpoint.NewBisyncNamespaceSeedFromCheckpoint(root, 0); err != nil {
+			return "", err
+		}
+	}
 	if seed != nil {
 		// Once the checkpoint hash is repointed, the new namespace must be readable
 		// through the current source run IDs instead of the historical one that
